@@ -207,3 +207,79 @@ func (c *VerifC17Control) VerifC17LanceroNoHardware(ncols, nrows, linePeriod int
 	c.SC.lancero = ls
 	return nil
 }
+
+// verifC17DropCard is a scripted lancero.Lanceroer: every read delivers `frames` whole frames (words are
+// errL errM fbL fbM; frame bit = bit 0 of fbL in row 0; the external-trigger bit, bit 1 of fbL, is set in
+// row 1 of every frame), except that the 2nd, 4th, 6th and 8th read after RunStarted() lack the first two
+// rows of their first frame: a DATA DROP, as when the card or driver loses bytes.
+type verifC17DropCard struct {
+	mu       sync.Mutex
+	ncols    int
+	nrows    int
+	frames   int
+	reads    int
+	runStart int
+	clock    time.Time
+}
+
+func (c *verifC17DropCard) ChangeRingBuffer(int, int) error                { return nil }
+func (c *verifC17DropCard) Close() error                                   { return nil }
+func (c *verifC17DropCard) StartAdapter(int, int) error                    { return nil }
+func (c *verifC17DropCard) StopAdapter() error                             { return nil }
+func (c *verifC17DropCard) CollectorConfigure(int, int, uint32, int) error { return nil }
+func (c *verifC17DropCard) StartCollector(bool) error                      { return nil }
+func (c *verifC17DropCard) StopCollector() error                           { return nil }
+func (c *verifC17DropCard) ReleaseBytes(int) error                         { return nil }
+func (c *verifC17DropCard) InspectAdapter() uint32                         { return 0 }
+func (c *verifC17DropCard) Wait() (time.Time, time.Duration, error) {
+	return time.Now(), time.Millisecond, nil
+}
+
+func (c *verifC17DropCard) AvailableBuffer() ([]byte, time.Time, error) {
+	c.mu.Lock()
+	defer c.mu.Unlock()
+	c.reads++
+	c.clock = c.clock.Add(50 * time.Millisecond)
+	buf := make([]byte, 0, c.frames*c.nrows*c.ncols*4)
+	for f := 0; f < c.frames; f++ {
+		for row := 0; row < c.nrows; row++ {
+			for col := 0; col < c.ncols; col++ {
+				fbL := byte(0)
+				if row == 0 {
+					fbL |= 0x01
+				}
+				if row == 1 {
+					fbL |= 0x02
+				}
+				buf = append(buf, 0x10, 0x00, fbL, 0x20)
+			}
+		}
+	}
+	if n := c.reads - c.runStart; c.runStart >= 0 && n <= 8 && n%2 == 0 {
+		buf = buf[2*c.ncols*4:]
+	}
+	return buf, c.clock, nil
+}
+
+// VerifC17LanceroDrops is VerifC17LanceroNoHardware with the scripted card that drops data early in the
+// run; call the returned function once Start has returned (the drops are counted from there).
+func (c *VerifC17Control) VerifC17LanceroDrops(ncols, nrows int) (runStarted func()) {
+	card := &verifC17DropCard{ncols: ncols, nrows: nrows, frames: 12, clock: time.Now(), runStart: -1}
+	ls := new(LanceroSource)
+	ls.name = "Lancero"
+	ls.nsamp = 1
+	ls.channelsPerPixel = 2
+	ls.clockMHz = 125
+	ls.firstRowChanNum = 1
+	dev := &LanceroDevice{card: card, devnum: 0, nrows: nrows, lsync: 3125, clockMHz: 125}
+	ls.devices = map[int]*LanceroDevice{0: dev}
+	ls.ncards = 1
+	ls.active = []*LanceroDevice{dev}
+	ls.heartbeats = c.SC.heartbeats
+	c.SC.lancero = ls
+	return func() {
+		card.mu.Lock()
+		card.runStart = card.reads
+		card.mu.Unlock()
+	}
+}
